@@ -77,6 +77,8 @@ def run(ctx):
                     resB = ("ok", r[0])
                 except uj.CallError as e:
                     resB = ("callerror", e)
+                except Exception as e:      # noqa   e.g. HasACycle: the returned plan cannot be executed at all
+                    resB = ("raised %s: %s" % (type(e).__name__, e), None)
                 finally:
                     w.slow_writes = 0
                 if w.normalising and tp is None:
